@@ -35,7 +35,7 @@ var modesMut = []struct {
 	l   int
 	del bool
 }{{"a", 1, false}, {"b", 0, false}, {"a", 0, false}, {"b", 1, false}, {"a", 0, true}, {"b", 1, false}}
-var modesFlt = []string{"lx0", "null", "lx1", "all", "fnx0", "nlx1"}
+var modesFlt = []string{"null", "lx0", "lx1", "all", "fnx0", "nlx1"}
 
 func modesMain(args []string) int {
 	fs := flag.NewFlagSet("modes", flag.ExitOnError)
